@@ -35,7 +35,9 @@ class _Cexptrk_Potential_Function(object):
 
   def __call__(self, *args):
     parameter_names = self._potential_form_tuple.signature.parameter_names
-    assert len(args) == len(parameter_names)
+    if len(args) != len(parameter_names):
+      raise Potential_Form_Exception("potential-form '{label}' takes {expected} arguments but {actual} were given".format(
+        label = self._potential_form_tuple.signature.label, expected = len(parameter_names), actual = len(args)))
     # The parameters live in a symbol table shared by every call of this function. Remember the
     # current bindings and put them back afterwards, otherwise a call made whilst this function is
     # already being evaluated (forms that call each other) would leave the outer call with the
